@@ -15,6 +15,7 @@
 #include <xercesc/framework/LocalFileInputSource.hpp>
 #include <xercesc/framework/MemBufInputSource.hpp>
 #include <xercesc/util/SecurityManager.hpp>
+#include <fcntl.h>
 #include <fstream>
 #include <set>
 
@@ -27,7 +28,13 @@ static std::string g_tracePrefix, g_tmpdir;
 static long g_traceEvery = 1, g_caseNo = 0, g_callSeq = 0;
 static FILE* g_traceFile = nullptr;
 
+static bool g_captureStderr = false;
 static void childInit() {
+    if (g_captureStderr) {      // sanitizer reports of this child go to <tmpdir>/san.<pid> (read back per call / by the orchestration)
+        std::string sp = g_tmpdir + "/san." + std::to_string((long)getpid());
+        int fd = open(sp.c_str(), O_WRONLY | O_CREAT | O_APPEND, 0644);
+        if (fd >= 0) { dup2(fd, 2); close(fd); }
+    }
     XMLPlatformUtils::Initialize();
     g_fm.inner = XMLPlatformUtils::fgFileMgr;
     XMLPlatformUtils::fgFileMgr = &g_fm;
@@ -438,6 +445,7 @@ int main(int argc, char** argv) {
     sup.batch = argc > 6 ? atoi(argv[6]) : (mode == "x" ? 16 : 4);
     const long maxFails = argc > 7 ? atol(argv[7]) : 8;       // after that many dead children the rest of the input is skipped (and counted)
     sup.initChild = childInit;
+    g_captureStderr = (mode == "x");
     g_sink.depthGuard = 3000;
     if (mode == "t") sup.handle = handleT;
     else sup.handle = handleX;
